@@ -59,12 +59,14 @@ package destination
 //@
 //@ func New(routeName string, matcher matcher.Matcher, addr string, spoolDir string, spool bool, pickle bool, periodFlush time.Duration, periodReConn time.Duration, connBufSize int, ioBufSize int, spoolBufSize int, spoolMaxBytesPerFile int64, spoolSyncEvery int64, spoolSyncPeriod time.Duration, spoolSleep time.Duration, unspoolSleep time.Duration) (dest *Destination, err error)
 //@   property C14,C20
-//@   modifies *
+//@   fresh
 //@   ensures[rejects_unusable; C14] err == nil ==> dest != nil && destParamsOK(dest)
 //@   ensures[stores_each_parameter; C20] err == nil ==> dest.Spool == spool && dest.Pickle == pickle && dest.periodFlush == periodFlush && dest.periodReConn == periodReConn
 //@        && dest.connBufSize == connBufSize && dest.ioBufSize == ioBufSize && dest.SpoolBufSize == spoolBufSize && dest.SpoolMaxBytesPerFile == spoolMaxBytesPerFile
 //@        && dest.SpoolSyncEvery == spoolSyncEvery && dest.SpoolSyncPeriod == spoolSyncPeriod && dest.SpoolSleep == spoolSleep && dest.UnspoolSleep == unspoolSleep
 //@        && dest.SpoolDir == spoolDir && dest.RouteName == routeName
+//@        && dest.Matcher.Prefix == matcher.Prefix && dest.Matcher.NotPrefix == matcher.NotPrefix && dest.Matcher.Sub == matcher.Sub && dest.Matcher.NotSub == matcher.NotSub
+//@        && dest.Matcher.Regex == matcher.Regex && dest.Matcher.NotRegex == matcher.NotRegex
 //@
 //@ func NewWriter(w io.Writer, size int, key string) *Writer
 //@   property C05,C14
